@@ -413,6 +413,19 @@ func (e *Exec) libModel(st *State, callee *ssa.Function, cc *ssa.CallCommon, arg
 		if e.eng.tmLock != nil {
 			e.eng.tmLock(e, st, name, cc, args)
 		}
+		// ghost: which mutexes (fields of heap objects) the function under verification holds - `held(x.mu)` in
+		// contracts; at entry nothing is known (a caller may hold any of them)
+		if len(args) > 0 {
+			if a := e.addrOf(st, args[0]); a != nil && a.Kind == AHeap && len(a.Steps) == 0 && a.Ref != "" {
+				key := "ghost|held:" + a.Key
+				m := e.memGet(st, key, "(Array Int Bool)")
+				v := "false"
+				if strings.HasSuffix(name, "Lock") && !strings.HasSuffix(name, "Unlock") {
+					v = "true"
+				}
+				e.memSet(st, key, "(Array Int Bool)", fmt.Sprintf("(store %s %s %s)", m, a.Ref, v))
+			}
+		}
 		return true, true, nil
 	case "(*sync.WaitGroup).Add", "(*sync.WaitGroup).Done", "(*sync.WaitGroup).Wait", "runtime.Gosched", "time.Sleep",
 		"(*log.Logger).Printf", "(*log.Logger).Println", "(*log.Logger).Print", "log.Printf", "log.Println", "log.Print":
